@@ -1,1 +1,1506 @@
-fn main() {}
+//! C19 — actors: serial FIFO handling, ordered lifecycle, unique names (DESIGN.md §3 C19).
+//!
+//! A case is a program of steps executed by one controller thread against a real
+//! `compio_actor::Cluster` (1–3 workers); `Burst` steps start 1–4 sender threads.  Every actor
+//! writes a log (hooks, handler begin/end); verdicts are taken from logs, returned values and
+//! `lookup` results.  A call is driven by polling its future by hand: once the actor's handle has
+//! resolved (actor, receiver and registration are gone) one more poll that is still `Pending`
+//! means the call can never be answered — an exact verdict, no timing involved.
+mod actors;
+
+use std::{
+    collections::{HashMap, HashSet},
+    future::{Future, IntoFuture},
+    num::NonZeroUsize,
+    pin::{pin, Pin},
+    sync::{
+        atomic::{AtomicBool, AtomicUsize, Ordering},
+        mpsc, Arc,
+    },
+    task::{Context, Poll, Wake, Waker},
+    time::{Duration, Instant},
+};
+
+use actors::*;
+use compio_actor::{
+    cluster::SpawnError,
+    mailbox::{CallError, DeliverError},
+    process_group::{Membership, ProcessGroup},
+    ActorExit, ActorHandle, Call, Cluster, Mailbox,
+};
+use compio_dispatcher::Dispatcher;
+use serde::{Deserialize, Serialize};
+use vcore::{
+    mono_ix,
+    proptest::{collection::vec, prelude::*},
+    Outcome, Part, Session,
+};
+
+const WATCHDOG: Duration = Duration::from_secs(30);
+const KNOWN_STUCK: &str = "C19/call-queued-at-exit/never-answered";
+
+// ------------------------------------------------------------------------------------------------
+// case type
+
+#[derive(Debug, Clone, Serialize, Deserialize)]
+pub struct Op {
+    pub call: bool,
+    pub act: Act,
+    /// go through a `Broker` instead of the `Mailbox`
+    pub broker: bool,
+}
+
+#[derive(Debug, Clone, Copy, Serialize, Deserialize, PartialEq)]
+pub enum ExitKind {
+    Stop,
+    FailMsg,
+    StopSelfMsg,
+}
+
+#[derive(Debug, Clone, Serialize, Deserialize)]
+pub struct ExitRace {
+    pub kind: ExitKind,
+    pub after_us: u16,
+}
+
+#[derive(Debug, Clone, Serialize, Deserialize)]
+pub enum Step {
+    Spawn { slot: u8, named: bool, cap: u8, fail: StartFail, supervised: bool, slow: bool },
+    /// 1-4 threads send/call concurrently; the controller may stop / fail the actor meanwhile
+    Burst { slot: u16, senders: Vec<Vec<Op>>, exit: Option<ExitRace>, calls_may_race: bool },
+    Stop { slot: u16 },
+    /// park the actor inside a handler (gate) and fill its mailbox to capacity
+    Block { slot: u16 },
+    Unblock { slot: u16 },
+    GroupJoin { slot: u16 },
+    GroupLeave { member: u16 },
+    /// controller alone, system quiescent: the routing result is known exactly
+    GroupSend { n: u8, call: bool },
+    GroupBurst { senders: Vec<Vec<Op>> },
+}
+
+#[derive(Debug, Clone, Serialize, Deserialize)]
+pub struct ActorCase {
+    pub workers: u8,
+    pub respawns: u8,
+    pub steps: Vec<Step>,
+}
+
+// ------------------------------------------------------------------------------------------------
+// small executor helpers
+
+struct ThreadWaker(std::thread::Thread);
+
+impl Wake for ThreadWaker {
+    fn wake(self: Arc<Self>) {
+        self.0.unpark();
+    }
+}
+
+fn block_on_for<F: Future>(fut: F, max: Duration) -> Option<F::Output> {
+    let mut fut = pin!(fut);
+    let waker = Waker::from(Arc::new(ThreadWaker(std::thread::current())));
+    let mut cx = Context::from_waker(&waker);
+    let end = Instant::now() + max;
+    loop {
+        if let Poll::Ready(v) = fut.as_mut().poll(&mut cx) {
+            return Some(v);
+        }
+        let now = Instant::now();
+        if now >= end {
+            return None;
+        }
+        std::thread::park_timeout((end - now).min(Duration::from_millis(50)));
+    }
+}
+
+enum Driven<T> {
+    Done(T),
+    /// the actor is gone (handle resolved before this poll started) and the call is still pending
+    Stuck,
+    Timeout,
+}
+
+fn drive_call<F: Future>(fut: F, gone: &AtomicBool, max: Duration) -> Driven<F::Output> {
+    let mut fut = pin!(fut);
+    let waker = Waker::from(Arc::new(ThreadWaker(std::thread::current())));
+    let mut cx = Context::from_waker(&waker);
+    let end = Instant::now() + max;
+    loop {
+        let was_gone = gone.load(Ordering::SeqCst);
+        if let Poll::Ready(v) = fut.as_mut().poll(&mut cx) {
+            return Driven::Done(v);
+        }
+        if was_gone {
+            return Driven::Stuck;
+        }
+        if Instant::now() >= end {
+            return Driven::Timeout;
+        }
+        std::thread::park_timeout(Duration::from_millis(1));
+    }
+}
+
+fn poll_once<F: Future + Unpin>(fut: &mut F) -> Option<F::Output> {
+    let waker = Waker::from(Arc::new(ThreadWaker(std::thread::current())));
+    let mut cx = Context::from_waker(&waker);
+    match Pin::new(fut).poll(&mut cx) {
+        Poll::Ready(v) => Some(v),
+        Poll::Pending => None,
+    }
+}
+
+// ------------------------------------------------------------------------------------------------
+// model
+
+#[derive(Debug, Clone, PartialEq)]
+enum Out {
+    SendOk,
+    SendFull,
+    SendClosed,
+    CallOk(usize),
+    CallFull,
+    CallClosed,
+    CallNoReply,
+    CallStuck,
+    Timeout,
+    Wrong(String),
+}
+
+#[derive(Debug, Clone)]
+struct Rec {
+    id: MsgId,
+    call: bool,
+    act: Act,
+    out: Out,
+}
+
+impl Rec {
+    fn accepted(&self) -> bool {
+        matches!(self.out, Out::SendOk | Out::CallOk(_) | Out::CallNoReply | Out::CallStuck)
+    }
+}
+
+struct Live {
+    aid: usize,
+    mailbox: Mailbox<TA>,
+    handle: Option<ActorHandle<String>>,
+    exit: Option<ActorExit<String>>,
+    name: Option<String>,
+    supervised: bool,
+    blocked: Option<usize>,
+    /// how many log entries existed when the blocking handler had begun and the queue was full
+    /// per sender: accepted sequence numbers in sending order
+    accepted: HashMap<u16, Vec<u32>>,
+    stop_requested: bool,
+    fail_accepted: bool,
+    stopself_accepted: bool,
+    post_start_fail: bool,
+    gone: Arc<AtomicBool>,
+    /// messages handled when stop() was requested on a parked actor (none may follow)
+    frozen_handled: Option<usize>,
+}
+
+struct Member {
+    aid: usize,
+    _cast: Membership<Cast>,
+    _call: Membership<Call<Ask, Ans>>,
+}
+
+struct World {
+    sh: Arc<Sh>,
+    cluster: Cluster,
+    slots: Vec<Option<Live>>,
+    sup: Option<(Mailbox<Sup>, ActorHandle<String>)>,
+    g_cast: ProcessGroup<Cast>,
+    g_call: ProcessGroup<Call<Ask, Ans>>,
+    members: Vec<Member>,
+    next_sender: u16,
+    ctrl_seq: u32,
+    budget: i32,
+    /// per name: expected supervisor events in order
+    sup_expect: HashMap<String, Vec<SupKind>>,
+    labels: HashSet<String>,
+    known_stuck: Option<String>,
+    names_used: HashMap<String, u32>,
+    exit_with_concurrent_senders: bool,
+}
+
+const CTRL: u16 = 0xffff;
+
+type Fail = Outcome;
+
+fn viol(sig: &str, detail: String) -> Outcome {
+    Outcome::violation(sig, detail)
+}
+
+fn slot_name(slot: usize) -> String {
+    format!("n{slot}")
+}
+
+fn handled_ids(log: &[Ev]) -> Vec<MsgId> {
+    log.iter().filter_map(|e| if let Ev::Begin(id) = e { Some(*id) } else { None }).collect()
+}
+
+impl World {
+    fn live_slots(&self) -> Vec<usize> {
+        (0..self.slots.len()).filter(|i| self.slots[*i].is_some()).collect()
+    }
+
+    fn pick(&self, raw: u16) -> Option<usize> {
+        let l = self.live_slots();
+        if l.is_empty() {
+            None
+        } else {
+            Some(l[mono_ix(raw, l.len())])
+        }
+    }
+
+    fn new_sender(&mut self) -> u16 {
+        self.next_sender += 1;
+        self.next_sender
+    }
+
+    fn factory(&self, aid: usize, fail: StartFail, start_gate: Option<usize>) -> impl FnOnce() -> TA + Send + 'static {
+        let sh = self.sh.clone();
+        move || TA { aid, sh, fail, start_gate }
+    }
+
+    // ---------------------------------------------------------------- serial handling / lifecycle audits
+
+    /// handlers strictly alternate Begin/End, never overlap, each message at most once, only accepted ones
+    fn audit_log(&self, l: &Live, log: &[Ev], group_accepted: &HashSet<MsgId>) -> Result<(), Fail> {
+        let st = &self.sh.actors[l.aid];
+        if st.max_in_handler.load(Ordering::SeqCst) > 1 {
+            return Err(viol("C19/handlers-overlap", format!("actor {}: {} handlers were running at once", l.aid, st.max_in_handler.load(Ordering::SeqCst))));
+        }
+        let mut open: Option<MsgId> = None;
+        let mut seen = HashSet::new();
+        let mut last_per_sender: HashMap<u16, u32> = HashMap::new();
+        for e in log {
+            match e {
+                Ev::Begin(id) => {
+                    if let Some(o) = open {
+                        return Err(viol("C19/handlers-overlap", format!("actor {}: handler of {id:?} began while {o:?} was still being handled; log {log:?}", l.aid)));
+                    }
+                    open = Some(*id);
+                    if !seen.insert(*id) {
+                        return Err(viol("C19/message-handled-twice", format!("actor {}: message {id:?} handled twice; log {log:?}", l.aid)));
+                    }
+                    let direct = l.accepted.get(&id.0).map(|v| v.contains(&id.1)).unwrap_or(false);
+                    if !direct && !group_accepted.contains(id) {
+                        return Err(viol("C19/rejected-message-handled", format!("actor {}: handled {id:?}, which no send reported as accepted (it was handed back or never sent here)", l.aid)));
+                    }
+                    if let Some(prev) = last_per_sender.insert(id.0, id.1) {
+                        if prev >= id.1 {
+                            return Err(viol("C19/fifo-violated", format!("actor {}: sender {} message #{} handled after #{prev}; log {log:?}", l.aid, id.0, id.1)));
+                        }
+                    }
+                }
+                Ev::End(id) => {
+                    if open != Some(*id) {
+                        return Err(viol("C19/handlers-overlap", format!("actor {}: End({id:?}) without matching Begin; log {log:?}", l.aid)));
+                    }
+                    open = None;
+                }
+                _ => {}
+            }
+        }
+        // per sender: handled = prefix of accepted (FIFO mailbox: nothing is skipped)
+        let handled = handled_ids(log);
+        for (s, acc) in &l.accepted {
+            let h: Vec<u32> = handled.iter().filter(|id| id.0 == *s).map(|id| id.1).collect();
+            if h.len() > acc.len() || h[..] != acc[..h.len()] {
+                return Err(viol("C19/fifo-violated", format!("actor {}: sender {s}: accepted in order {acc:?} but handled {h:?} (not a prefix)", l.aid)));
+            }
+        }
+        Ok(())
+    }
+
+    /// all messages accepted directly by this (alive, fenced) actor were handled
+    fn audit_drained(&self, l: &Live) -> Result<(), Fail> {
+        let log = self.sh.log_of(l.aid);
+        let handled: HashSet<MsgId> = handled_ids(&log).into_iter().collect();
+        for (s, acc) in &l.accepted {
+            for q in acc {
+                if !handled.contains(&(*s, *q)) {
+                    return Err(viol(
+                        "C19/accepted-message-never-handled",
+                        format!("actor {} is alive and has handled a later fence message, but accepted message ({s},{q}) was never handled; log {log:?}", l.aid),
+                    ));
+                }
+            }
+        }
+        Ok(())
+    }
+
+    fn audit_exit(&mut self, l: &Live, exit: &ActorExit<String>, group_accepted: &HashSet<MsgId>) -> Result<(), Fail> {
+        let log = self.sh.log_of(l.aid);
+        let n = log.len();
+        let shape_ok = n >= 4
+            && log[0] == Ev::PreStart
+            && log[1] == Ev::PostStart
+            && log[n - 2] == Ev::PreStop
+            && log[n - 1] == Ev::PostStop
+            && log[2..n - 2].iter().all(|e| matches!(e, Ev::Begin(_) | Ev::End(_)));
+        if !shape_ok {
+            return Err(viol("C19/lifecycle-order", format!("actor {}: hooks not pre_start, post_start, handlers, pre_stop, post_stop exactly once each: {log:?}", l.aid)));
+        }
+        if l.post_start_fail && n != 4 {
+            return Err(viol("C19/lifecycle-order", format!("actor {}: post_start failed but messages were handled: {log:?}", l.aid)));
+        }
+        self.audit_log(l, &log, group_accepted)?;
+        if let Some(k) = l.frozen_handled {
+            let h = handled_ids(&log).len();
+            if h > k {
+                return Err(viol(
+                    "C19/message-handled-after-stop-request",
+                    format!("actor {}: stop() was requested (returned true) while a handler was parked with {k} messages handled; {h} were handled in the end: {log:?}", l.aid),
+                ));
+            }
+        }
+        let stop_cause = l.stop_requested || l.stopself_accepted;
+        let fail_cause = l.fail_accepted || l.post_start_fail;
+        let ok = match exit {
+            ActorExit::Stopped => stop_cause,
+            ActorExit::Failed(e) => fail_cause && (e.contains("handler failed") || e.contains("post_start failed")),
+        };
+        if !ok {
+            let sig = if !stop_cause && !fail_cause { "C19/actor-exited-unrequested" } else { "C19/wrong-exit-value" };
+            return Err(viol(sig, format!("actor {}: exit {exit:?}; stop requested: {stop_cause}, failure accepted: {fail_cause}", l.aid)));
+        }
+        if l.supervised {
+            if let Some(name) = &l.name {
+                let e = self.sup_expect.entry(name.clone()).or_default();
+                if !l.post_start_fail {
+                    e.push(SupKind::Started);
+                }
+                e.push(if matches!(exit, ActorExit::Stopped) { SupKind::Terminated } else { SupKind::Failed });
+            }
+        }
+        Ok(())
+    }
+
+    // ---------------------------------------------------------------- registry
+
+    fn probe(&mut self, mb: &Mailbox<TA>, accepted: Option<&mut HashMap<u16, Vec<u32>>>) -> Result<Option<usize>, Fail> {
+        // a call from the controller; retried while the mailbox is full
+        let end = Instant::now() + WATCHDOG;
+        let mut accepted = accepted;
+        loop {
+            self.ctrl_seq += 1;
+            let id = (CTRL, self.ctrl_seq);
+            match block_on_for(mb.call::<Ask, Ans>(Ask { id, act: Act::Nop }), WATCHDOG) {
+                None => return Err(Outcome::inconclusive("probe call not answered within the watchdog")),
+                Some(Ok(a)) => {
+                    if a.id != id {
+                        return Err(viol("C19/reply-reached-wrong-caller", format!("probe {id:?} got the reply for {:?}", a.id)));
+                    }
+                    if let Some(acc) = accepted.as_deref_mut() {
+                        acc.entry(CTRL).or_default().push(id.1);
+                    }
+                    return Ok(Some(a.aid));
+                }
+                Some(Err(CallError::Full(_))) => {
+                    if Instant::now() > end {
+                        return Err(Outcome::inconclusive("mailbox stayed full during a probe"));
+                    }
+                    std::thread::sleep(Duration::from_micros(200));
+                }
+                Some(Err(_)) => return Ok(None),
+            }
+        }
+    }
+
+    fn audit_registry(&mut self) -> Result<(), Fail> {
+        for slot in 0..self.slots.len() {
+            let name = slot_name(slot);
+            let found = self.cluster.lookup::<TA, _>(name.clone());
+            let expect = self.slots[slot].as_ref().filter(|l| l.name.is_some()).map(|l| (l.aid, l.blocked.is_some()));
+            match (expect, found) {
+                (None, None) => {}
+                (None, Some(_)) => {
+                    return Err(viol("C19/name-not-released", format!("lookup({name:?}) finds an actor although its owner has exited (handle resolved) or never started")));
+                }
+                (Some((aid, _)), None) => {
+                    return Err(viol("C19/live-actor-not-found", format!("lookup({name:?}) is None although actor {aid} started under that name and has not been stopped")));
+                }
+                (Some((aid, blocked)), Some(mb)) => {
+                    if mb.name() != Some(name.as_str()) {
+                        return Err(viol("C19/lookup-wrong-actor", format!("lookup({name:?}) returned a mailbox named {:?}", mb.name())));
+                    }
+                    if !blocked {
+                        let mut acc = self.slots[slot].as_mut().unwrap().accepted.clone();
+                        let got = self.probe(&mb, Some(&mut acc))?;
+                        self.slots[slot].as_mut().unwrap().accepted = acc;
+                        if got != Some(aid) {
+                            return Err(viol("C19/lookup-wrong-actor", format!("lookup({name:?}) reaches actor {got:?}, the live owner of the name is actor {aid}")));
+                        }
+                    }
+                }
+            }
+        }
+        Ok(())
+    }
+
+    // ---------------------------------------------------------------- exits
+
+    fn poll_exit(&mut self, slot: usize) -> bool {
+        let l = self.slots[slot].as_mut().unwrap();
+        if l.exit.is_some() {
+            return true;
+        }
+        if let Some(h) = l.handle.as_mut() {
+            if let Some(r) = poll_once(h) {
+                l.handle = None;
+                match r {
+                    Ok(e) => l.exit = Some(e),
+                    Err(_) => l.exit = Some(ActorExit::Failed("<worker stopped>".into())),
+                }
+                l.gone.store(true, Ordering::SeqCst);
+                return true;
+            }
+        }
+        false
+    }
+
+    /// wait for the exit, audit the dead actor, free the slot, follow a supervisor respawn
+    fn reap(&mut self, slot: usize, group_accepted: &HashSet<MsgId>) -> Result<(), Fail> {
+        let end = Instant::now() + WATCHDOG;
+        while !self.poll_exit(slot) {
+            if Instant::now() > end {
+                return Err(Outcome::inconclusive("actor did not exit within the watchdog"));
+            }
+            std::thread::sleep(Duration::from_micros(300));
+        }
+        let mut l = self.slots[slot].take().unwrap();
+        let exit = l.exit.take().unwrap();
+        if exit == ActorExit::Failed("<worker stopped>".into()) {
+            return Err(viol("C19/actor-handle-error", format!("actor {}: handle reported that the worker stopped before the exit", l.aid)));
+        }
+        self.members.retain(|m| m.aid != l.aid || true); // memberships of dead actors stay until evicted or left
+        self.audit_exit(&l, &exit, group_accepted)?;
+        // the name is free once the handle has resolved; a supervisor may re-use it at once
+        if l.supervised && l.name.is_some() && self.sup.is_some() {
+            let name = l.name.clone().unwrap();
+            let expect_n = self.sup_expect[&name].len();
+            let end = Instant::now() + WATCHDOG;
+            loop {
+                let seen = self.sh.sup_log.lock().unwrap().iter().filter(|(_, n)| n.as_deref() == Some(name.as_str())).count();
+                if seen >= expect_n {
+                    break;
+                }
+                if Instant::now() > end {
+                    return Err(Outcome::inconclusive("supervisor did not record the terminal event within the watchdog"));
+                }
+                std::thread::sleep(Duration::from_micros(300));
+            }
+            if self.budget > 0 {
+                self.budget -= 1;
+                let end = Instant::now() + WATCHDOG;
+                loop {
+                    if let Some(e) = self.sh.respawn_errors.lock().unwrap().first() {
+                        return Err(viol("C19/name-not-free-at-terminal-event", e.clone()));
+                    }
+                    let r = {
+                        let mut rs = self.sh.respawned.lock().unwrap();
+                        rs.iter().position(|r| r.name == name).map(|i| rs.remove(i))
+                    };
+                    if let Some(r) = r {
+                        *self.names_used.entry(name.clone()).or_default() += 1;
+                        self.labels.insert("respawned-by-supervisor".into());
+                        self.slots[slot] = Some(Live {
+                            aid: r.aid,
+                            mailbox: r.mailbox,
+                            handle: Some(r.handle),
+                            exit: None,
+                            name: Some(name),
+                            supervised: true,
+                            blocked: None,
+                            accepted: HashMap::new(),
+                            stop_requested: false,
+                            fail_accepted: false,
+                            stopself_accepted: false,
+                            post_start_fail: false,
+                            gone: Arc::new(AtomicBool::new(false)),
+                            frozen_handled: None,
+                        });
+                        break;
+                    }
+                    if Instant::now() > end {
+                        return Err(Outcome::inconclusive("supervisor did not finish the respawn within the watchdog"));
+                    }
+                    std::thread::sleep(Duration::from_micros(300));
+                }
+            }
+        }
+        Ok(())
+    }
+
+    /// FIFO fence: a controller message handled => everything accepted before it was handled
+    fn fence(&mut self, slot: usize) -> Result<bool, Fail> {
+        let end = Instant::now() + WATCHDOG;
+        let id = loop {
+            self.ctrl_seq += 1;
+            let id = (CTRL, self.ctrl_seq);
+            let l = self.slots[slot].as_mut().unwrap();
+            match l.mailbox.send(Cast { id, act: Act::Nop }) {
+                Ok(()) => {
+                    l.accepted.entry(CTRL).or_default().push(id.1);
+                    break id;
+                }
+                Err(DeliverError::Full(m)) => {
+                    if m.id != id {
+                        return Err(viol("C19/wrong-message-handed-back", format!("sent {id:?}, Full returned {:?}", m.id)));
+                    }
+                    if Instant::now() > end {
+                        return Err(Outcome::inconclusive("mailbox stayed full during a fence"));
+                    }
+                    std::thread::sleep(Duration::from_micros(200));
+                }
+                Err(DeliverError::Closed(_)) => return Ok(false),
+            }
+        };
+        let aid = self.slots[slot].as_ref().unwrap().aid;
+        loop {
+            if self.sh.actors[aid].log.lock().unwrap().iter().any(|e| *e == Ev::End(id)) {
+                return Ok(true);
+            }
+            if self.poll_exit(slot) {
+                return Ok(false);
+            }
+            if Instant::now() > end {
+                return Err(Outcome::inconclusive("fence message not handled within the watchdog"));
+            }
+            std::thread::sleep(Duration::from_micros(200));
+        }
+    }
+
+    /// fence + "everything accepted was handled"; an unexpected exit is reported by reap()
+    fn settle(&mut self, slot: usize, group_accepted: &HashSet<MsgId>) -> Result<(), Fail> {
+        if self.slots[slot].as_ref().map(|l| l.blocked.is_some()).unwrap_or(true) {
+            return Ok(());
+        }
+        if self.fence(slot)? {
+            let l = self.slots[slot].as_ref().unwrap();
+            self.audit_drained(l)?;
+            let log = self.sh.log_of(l.aid);
+            self.audit_log(l, &log, group_accepted)
+        } else {
+            self.reap(slot, group_accepted)
+        }
+    }
+}
+
+// ------------------------------------------------------------------------------------------------
+// sender threads
+
+#[derive(Clone)]
+enum Target {
+    Direct(Mailbox<TA>),
+    Group(ProcessGroup<Cast>, ProcessGroup<Call<Ask, Ans>>),
+}
+
+fn run_sender(target: Target, sender: u16, ops: Vec<Op>, gone: Arc<AtomicBool>, cause: Arc<AtomicBool>, arrived: Arc<AtomicUsize>, n: usize) -> Vec<Rec> {
+    arrived.fetch_add(1, Ordering::SeqCst);
+    let end = Instant::now() + Duration::from_secs(2);
+    while arrived.load(Ordering::SeqCst) < n && Instant::now() < end {
+        std::thread::yield_now();
+    }
+    let mut recs = vec![];
+    for (k, op) in ops.iter().enumerate() {
+        let id = (sender, k as u32);
+        let out = if op.call {
+            let ask = Ask { id, act: op.act };
+            let r = match &target {
+                Target::Direct(mb) => {
+                    if op.broker {
+                        let b = mb.broker::<Call<Ask, Ans>>();
+                        drive_call(b.call(ask), &gone, WATCHDOG)
+                    } else {
+                        drive_call(mb.call::<Ask, Ans>(ask), &gone, WATCHDOG)
+                    }
+                }
+                Target::Group(_, g) => drive_call(g.call(ask), &gone, WATCHDOG),
+            };
+            match r {
+                Driven::Stuck => Out::CallStuck,
+                Driven::Timeout => Out::Timeout,
+                Driven::Done(Ok(a)) => {
+                    if a.id == id {
+                        Out::CallOk(a.aid)
+                    } else {
+                        Out::Wrong(format!("call {id:?} received the reply for {:?}", a.id))
+                    }
+                }
+                Driven::Done(Err(CallError::NoReply)) => Out::CallNoReply,
+                Driven::Done(Err(CallError::Full(m))) => {
+                    if m.id == id {
+                        Out::CallFull
+                    } else {
+                        Out::Wrong(format!("call {id:?}: Full handed back {:?}", m.id))
+                    }
+                }
+                Driven::Done(Err(CallError::Closed(m))) => {
+                    if m.id == id {
+                        Out::CallClosed
+                    } else {
+                        Out::Wrong(format!("call {id:?}: Closed handed back {:?}", m.id))
+                    }
+                }
+            }
+        } else {
+            let m = Cast { id, act: op.act };
+            let r = match &target {
+                Target::Direct(mb) => {
+                    if op.broker {
+                        mb.broker::<Cast>().send(m)
+                    } else {
+                        mb.send(m)
+                    }
+                }
+                Target::Group(g, _) => g.send(m),
+            };
+            match r {
+                Ok(()) => Out::SendOk,
+                Err(DeliverError::Full(m)) if m.id == id => Out::SendFull,
+                Err(DeliverError::Closed(m)) if m.id == id => Out::SendClosed,
+                Err(e) => Out::Wrong(format!("send {id:?} handed back {:?}", e.into_inner().id)),
+            }
+        };
+        let rec = Rec { id, call: op.call, act: op.act, out };
+        if rec.accepted() && matches!(op.act, Act::Fail | Act::StopSelf) {
+            cause.store(true, Ordering::SeqCst);
+        }
+        recs.push(rec);
+    }
+    recs
+}
+
+// ------------------------------------------------------------------------------------------------
+// interpreter
+
+pub fn run_case(case: &ActorCase) -> Outcome {
+    match run_inner(case) {
+        Ok(o) | Err(o) => o,
+    }
+}
+
+fn run_inner(case: &ActorCase) -> Result<Outcome, Fail> {
+    let workers = case.workers.clamp(1, 3) as usize;
+    let dispatcher = Dispatcher::builder()
+        .worker_threads(NonZeroUsize::new(workers).unwrap())
+        .thread_names(|i| format!("c19w-{i}"))
+        .build()
+        .map_err(|e| Outcome::inconclusive(format!("dispatcher: {e}")))?;
+    let cluster = Cluster::from_dispatcher(dispatcher);
+    let sh = Sh::new(case.respawns.min(3) as i32);
+    let mut w = World {
+        sh: sh.clone(),
+        cluster: cluster.clone(),
+        slots: (0..4).map(|_| None).collect(),
+        sup: None,
+        g_cast: ProcessGroup::new(),
+        g_call: ProcessGroup::new(),
+        members: vec![],
+        next_sender: 0,
+        ctrl_seq: 0,
+        budget: case.respawns.min(3) as i32,
+        sup_expect: HashMap::new(),
+        labels: HashSet::new(),
+        known_stuck: None,
+        names_used: HashMap::new(),
+        exit_with_concurrent_senders: false,
+    };
+    let mut group_accepted: HashSet<MsgId> = HashSet::new();
+    if case.steps.iter().any(|s| matches!(s, Step::Spawn { supervised: true, named: true, .. })) {
+        let sh2 = sh.clone();
+        match block_on_for(cluster.spawn(move || Sup { sh: sh2 }, ()).into_future(), WATCHDOG) {
+            Some(Ok(s)) => w.sup = Some(s),
+            Some(Err(e)) => return Err(viol("C19/supervisor-spawn-failed", format!("{e:?}"))),
+            None => return Err(Outcome::inconclusive("supervisor did not start within the watchdog")),
+        }
+    }
+    let r = run_steps(&mut w, case, &mut group_accepted);
+    // ---- tear down (also after a failure, so that no thread outlives the case)
+    let teardown = teardown(&mut w, &group_accepted, r.is_ok());
+    r?;
+    teardown?;
+    // supervisor log
+    let log = sh.sup_log.lock().unwrap().clone();
+    for (name, expect) in &w.sup_expect {
+        let got: Vec<SupKind> = log.iter().filter(|(_, n)| n.as_deref() == Some(name.as_str())).map(|(k, _)| *k).collect();
+        if &got != expect {
+            return Err(viol("C19/supervision-events", format!("name {name:?}: supervisor saw {got:?}, the children's lives were {expect:?}")));
+        }
+    }
+    if let Some(d) = w.known_stuck {
+        return Err(viol(KNOWN_STUCK, d));
+    }
+    if w.names_used.values().any(|n| *n >= 2) {
+        w.labels.insert("name-reused".into());
+    }
+    let nontrivial = w.exit_with_concurrent_senders || w.names_used.values().any(|n| *n >= 2);
+    let mut labels: Vec<String> = w.labels.into_iter().collect();
+    labels.sort();
+    Ok(Outcome::pass_owned(nontrivial, labels))
+}
+
+fn teardown(w: &mut World, group_accepted: &HashSet<MsgId>, audit: bool) -> Result<(), Fail> {
+    let mut first_err = None;
+    for slot in 0..w.slots.len() {
+        if w.slots[slot].is_none() {
+            continue;
+        }
+        // a supervisor must not resurrect actors during tear-down
+        w.budget = 0;
+        w.sh.respawn_budget.store(0, Ordering::SeqCst);
+        let l = w.slots[slot].as_mut().unwrap();
+        if let Some(g) = l.blocked.take() {
+            w.sh.open_gate(g);
+        }
+        if !(l.stop_requested || l.fail_accepted || l.stopself_accepted) {
+            l.mailbox.stop();
+            l.stop_requested = true;
+        }
+        if audit {
+            if let Err(e) = w.reap(slot, group_accepted) {
+                first_err.get_or_insert(e);
+            }
+        } else {
+            let end = Instant::now() + Duration::from_secs(10);
+            while !w.poll_exit(slot) && Instant::now() < end {
+                std::thread::sleep(Duration::from_millis(1));
+            }
+            w.slots[slot] = None;
+        }
+    }
+    w.members.clear();
+    if let Some((mb, h)) = w.sup.take() {
+        mb.stop();
+        let _ = block_on_for(h, Duration::from_secs(10));
+    }
+    match block_on_for(w.cluster.clone().join(), WATCHDOG) {
+        Some(Ok(())) => {}
+        Some(Err(e)) => {
+            first_err.get_or_insert(viol("C19/cluster-join-error", format!("{e}")));
+        }
+        None => {
+            first_err.get_or_insert(Outcome::inconclusive("cluster.join() did not return within the watchdog"));
+        }
+    }
+    match first_err {
+        Some(e) => Err(e),
+        None => Ok(()),
+    }
+}
+
+fn run_steps(w: &mut World, case: &ActorCase, group_accepted: &mut HashSet<MsgId>) -> Result<(), Fail> {
+    for step in &case.steps {
+        match step {
+            Step::Spawn { slot, named, cap, fail, supervised, slow } => step_spawn(w, *slot as usize % 4, *named, (*cap).clamp(1, 8), *fail, *supervised, *slow, group_accepted)?,
+            Step::Burst { slot, senders, exit, calls_may_race } => {
+                if let Some(s) = w.pick(*slot) {
+                    step_burst(w, s, senders, exit.as_ref(), *calls_may_race, group_accepted)?;
+                }
+            }
+            Step::Stop { slot } => {
+                if let Some(s) = w.pick(*slot) {
+                    let l = w.slots[s].as_mut().unwrap();
+                    let first = l.mailbox.stop();
+                    if !first {
+                        return Err(viol("C19/stop-returned-false", format!("actor {}: first stop() on a running actor returned false", l.aid)));
+                    }
+                    l.stop_requested = true;
+                    if let Some(g) = l.blocked.take() {
+                        // the handler is provably parked: nothing queued may be handled any more
+                        l.frozen_handled = Some(handled_ids(&w.sh.log_of(l.aid)).len());
+                        w.sh.open_gate(g);
+                        w.labels.insert("stop-with-full-queue".into());
+                    }
+                    w.reap(s, group_accepted)?;
+                }
+            }
+            Step::Block { slot } => {
+                if let Some(s) = w.pick(*slot) {
+                    step_block(w, s, group_accepted)?;
+                }
+            }
+            Step::Unblock { slot } => {
+                if let Some(s) = w.pick(*slot) {
+                    if let Some(g) = w.slots[s].as_mut().unwrap().blocked.take() {
+                        w.sh.open_gate(g);
+                        w.settle(s, group_accepted)?;
+                    }
+                }
+            }
+            Step::GroupJoin { slot } => {
+                if let Some(s) = w.pick(*slot) {
+                    let l = w.slots[s].as_ref().unwrap();
+                    if !w.members.iter().any(|m| m.aid == l.aid) {
+                        let m = Member { aid: l.aid, _cast: w.g_cast.join(l.mailbox.broker::<Cast>()), _call: w.g_call.join(l.mailbox.broker::<Call<Ask, Ans>>()) };
+                        w.members.push(m);
+                        w.labels.insert("group-join".into());
+                    }
+                }
+            }
+            Step::GroupLeave { member } => {
+                if !w.members.is_empty() {
+                    let i = mono_ix(*member, w.members.len());
+                    let m = w.members.remove(i);
+                    m._cast.leave();
+                    m._call.leave();
+                    w.labels.insert("group-leave".into());
+                }
+            }
+            Step::GroupSend { n, call } => step_group_send(w, (*n).clamp(1, 6), *call, group_accepted)?,
+            Step::GroupBurst { senders } => step_group_burst(w, senders, group_accepted)?,
+        }
+        w.audit_registry()?;
+    }
+    Ok(())
+}
+
+#[allow(clippy::too_many_arguments)]
+fn step_spawn(w: &mut World, slot: usize, named: bool, cap: u8, fail: StartFail, supervised: bool, slow: bool, group_accepted: &HashSet<MsgId>) -> Result<(), Fail> {
+    let name = slot_name(slot);
+    if let Some(l) = &w.slots[slot] {
+        if named && l.name.is_some() {
+            // the name is taken by a live actor
+            let aid = w.sh.next_aid.fetch_add(1, Ordering::SeqCst);
+            let r = block_on_for(w.cluster.spawn(w.factory(aid, StartFail::None, None), ()).with_name(name.clone()).into_future(), WATCHDOG);
+            return match r {
+                None => Err(Outcome::inconclusive("duplicate spawn did not return")),
+                Some(Err(SpawnError::NameTaken(n))) if n == name => {
+                    w.labels.insert("name-taken".into());
+                    if !w.sh.log_of(aid).is_empty() {
+                        return Err(viol("C19/rejected-spawn-ran-hooks", format!("spawn under the taken name {name:?} was refused but its actor ran {:?}", w.sh.log_of(aid))));
+                    }
+                    Ok(())
+                }
+                Some(other) => Err(viol("C19/duplicate-name-accepted", format!("name {name:?} belongs to live actor {}, a second spawn returned {:?}", l.aid, other.map(|_| "Ok(..)")))),
+            };
+        }
+        return Ok(());
+    }
+    let aid = w.sh.next_aid.fetch_add(1, Ordering::SeqCst);
+    if aid + 8 > MAX_ACTORS {
+        return Ok(());
+    }
+    let supervised = supervised && named && w.sup.is_some();
+    let gate = if slow && named { Some(w.sh.next_gate.fetch_add(1, Ordering::SeqCst)) } else { None };
+    let mut b = w.cluster.spawn(w.factory(aid, fail, gate), ()).with_capacity(NonZeroUsize::new(cap as usize).unwrap());
+    if named {
+        b = b.with_name(name.clone());
+    }
+    if supervised {
+        b = b.with_supervisor(&w.sup.as_ref().unwrap().0);
+    }
+    let fut = b.into_future();
+    let result = if let Some(g) = gate {
+        // start-up is parked inside pre_start: the name is reserved but must be invisible
+        let (tx, rx) = mpsc::channel();
+        let h = std::thread::Builder::new()
+            .name("c19spawn".into())
+            .spawn(move || {
+                let _ = tx.send(block_on_for(fut, WATCHDOG));
+            })
+            .expect("spawn thread");
+        let end = Instant::now() + WATCHDOG;
+        while w.sh.log_of(aid).is_empty() {
+            if Instant::now() > end {
+                w.sh.open_gate(g);
+                let _ = h.join();
+                return Err(Outcome::inconclusive("pre_start did not begin within the watchdog"));
+            }
+            std::thread::sleep(Duration::from_micros(200));
+        }
+        let visible = w.cluster.lookup::<TA, _>(name.clone()).is_some();
+        let aid2 = w.sh.next_aid.fetch_add(1, Ordering::SeqCst);
+        let dup = block_on_for(w.cluster.spawn(w.factory(aid2, StartFail::None, None), ()).with_name(name.clone()).into_future(), WATCHDOG);
+        w.sh.open_gate(g);
+        let r = rx.recv_timeout(WATCHDOG + Duration::from_secs(5)).ok().flatten();
+        let _ = h.join();
+        if visible {
+            return Err(viol("C19/name-visible-before-startup", format!("lookup({name:?}) found the actor while its pre_start had not returned")));
+        }
+        match dup {
+            Some(Err(SpawnError::NameTaken(n))) if n == name => {}
+            None => return Err(Outcome::inconclusive("duplicate spawn did not return")),
+            Some(other) => {
+                return Err(viol("C19/duplicate-name-accepted", format!("name {name:?} is reserved by an actor that is starting up, a second spawn returned {:?}", other.map(|_| "Ok(..)"))));
+            }
+        }
+        w.labels.insert("slow-start".into());
+        r
+    } else {
+        block_on_for(fut, WATCHDOG)
+    };
+    let Some(result) = result else {
+        return Err(Outcome::inconclusive("spawn did not return within the watchdog"));
+    };
+    match (fail, result) {
+        (StartFail::PreStart, Err(SpawnError::Start(e))) if e == "pre_start failed" => {
+            let log = w.sh.log_of(aid);
+            if log != [Ev::PreStart] {
+                return Err(viol("C19/lifecycle-order", format!("actor {aid}: pre_start failed, hooks run: {log:?}")));
+            }
+            w.labels.insert("start-failed".into());
+            Ok(())
+        }
+        (StartFail::PreStart, other) => Err(viol("C19/failed-start-not-reported", format!("pre_start failed but spawn returned {:?}", other.map(|_| "Ok(..)")))),
+        (_, Err(e)) => Err(viol("C19/spawn-failed", format!("spawn of actor {aid} (name {:?}) returned {e:?} although the name was free and start-up succeeds", named.then_some(&name)))),
+        (f, Ok((mailbox, handle))) => {
+            if named {
+                *w.names_used.entry(name.clone()).or_default() += 1;
+                if mailbox.name() != Some(name.as_str()) {
+                    return Err(viol("C19/mailbox-name", format!("spawned as {name:?}, mailbox.name() = {:?}", mailbox.name())));
+                }
+            }
+            w.slots[slot] = Some(Live {
+                aid,
+                mailbox,
+                handle: Some(handle),
+                exit: None,
+                name: named.then_some(name),
+                supervised,
+                blocked: None,
+                accepted: HashMap::new(),
+                stop_requested: false,
+                fail_accepted: false,
+                stopself_accepted: false,
+                post_start_fail: f == StartFail::PostStart,
+                gone: Arc::new(AtomicBool::new(false)),
+                frozen_handled: None,
+            });
+            if f == StartFail::PostStart {
+                w.labels.insert("post-start-failed".into());
+                w.reap(slot, group_accepted)?;
+            }
+            Ok(())
+        }
+    }
+}
+
+fn step_block(w: &mut World, slot: usize, group_accepted: &HashSet<MsgId>) -> Result<(), Fail> {
+    if w.slots[slot].as_ref().unwrap().blocked.is_some() {
+        return Ok(());
+    }
+    w.settle(slot, group_accepted)?;
+    let Some(l) = w.slots[slot].as_mut() else { return Ok(()) };
+    let g = w.sh.next_gate.fetch_add(1, Ordering::SeqCst);
+    if g + 1 >= MAX_GATES {
+        return Ok(());
+    }
+    w.ctrl_seq += 1;
+    let id = (CTRL, w.ctrl_seq);
+    if l.mailbox.send(Cast { id, act: Act::WaitGate(g as u16) }).is_err() {
+        return Ok(());
+    }
+    l.accepted.entry(CTRL).or_default().push(id.1);
+    l.blocked = Some(g);
+    let end = Instant::now() + WATCHDOG;
+    while !w.sh.actors[l.aid].log.lock().unwrap().contains(&Ev::Begin(id)) {
+        if Instant::now() > end {
+            return Err(Outcome::inconclusive("parking handler did not begin"));
+        }
+        std::thread::sleep(Duration::from_micros(200));
+    }
+    // fill the mailbox: the handler is parked, so nothing is consumed
+    let mut filled = 0;
+    loop {
+        w.ctrl_seq += 1;
+        let id = (CTRL, w.ctrl_seq);
+        match l.mailbox.send(Cast { id, act: Act::Nop }) {
+            Ok(()) => {
+                l.accepted.entry(CTRL).or_default().push(id.1);
+                filled += 1;
+                if filled > 64 {
+                    return Err(viol("C19/mailbox-unbounded", format!("actor {}: more than 64 messages accepted while its handler is parked", l.aid)));
+                }
+            }
+            Err(DeliverError::Full(m)) if m.id == id => break,
+            Err(e) => return Err(viol("C19/wrong-message-handed-back", format!("fill {id:?}: {:?}", e.into_inner().id))),
+        }
+    }
+    w.labels.insert("parked-with-full-mailbox".into());
+    Ok(())
+}
+
+fn step_burst(w: &mut World, slot: usize, senders: &[Vec<Op>], exit: Option<&ExitRace>, calls_may_race: bool, group_accepted: &HashSet<MsgId>) -> Result<(), Fail> {
+    let blocked = w.slots[slot].as_ref().unwrap().blocked.is_some();
+    let exit = if blocked { None } else { exit };
+    let has_cause = exit.is_some() || senders.iter().flatten().any(|o| matches!(o.act, Act::Fail | Act::StopSelf));
+    let allow_calls = !has_cause || calls_may_race;
+    let n = senders.len();
+    let arrived = Arc::new(AtomicUsize::new(0));
+    let cause = Arc::new(AtomicBool::new(false));
+    let (mb, gone, aid) = {
+        let l = w.slots[slot].as_ref().unwrap();
+        (l.mailbox.clone(), l.gone.clone(), l.aid)
+    };
+    let mut hs = vec![];
+    for ops in senders {
+        let sender = w.new_sender();
+        let ops: Vec<Op> = ops
+            .iter()
+            .map(|o| {
+                let mut o = o.clone();
+                if matches!(o.act, Act::WaitGate(_)) {
+                    o.act = Act::Nop;
+                }
+                if o.call && !allow_calls {
+                    // shape of the known finding kept out by construction: no call may be queued when the actor exits
+                    o.call = false;
+                }
+                if !o.call && o.act == Act::NoReply {
+                    o.act = Act::Nop;
+                }
+                o
+            })
+            .collect();
+        let (t, g, c, a) = (Target::Direct(mb.clone()), gone.clone(), cause.clone(), arrived.clone());
+        hs.push((sender, std::thread::Builder::new().name("c19send".into()).spawn(move || run_sender(t, sender, ops, g, c, a, n)).expect("spawn sender")));
+    }
+    // the controller's side of the race
+    if let Some(x) = exit {
+        std::thread::sleep(Duration::from_micros(x.after_us as u64));
+        let l = w.slots[slot].as_mut().unwrap();
+        match x.kind {
+            ExitKind::Stop => {
+                if l.mailbox.stop() {
+                    l.stop_requested = true;
+                } else if !cause.load(Ordering::SeqCst) && !l.mailbox.is_closed() {
+                    return Err(viol("C19/stop-returned-false", format!("actor {aid}: stop() returned false although nobody had requested a stop")));
+                } else {
+                    l.stop_requested = true; // someone else's StopSelf won; the actor stops either way
+                }
+            }
+            ExitKind::FailMsg | ExitKind::StopSelfMsg => {
+                let end = Instant::now() + WATCHDOG;
+                loop {
+                    w.ctrl_seq += 1;
+                    let id = (CTRL, w.ctrl_seq);
+                    let act = if x.kind == ExitKind::FailMsg { Act::Fail } else { Act::StopSelf };
+                    match l.mailbox.send(Cast { id, act }) {
+                        Ok(()) => {
+                            l.accepted.entry(CTRL).or_default().push(id.1);
+                            cause.store(true, Ordering::SeqCst);
+                            break;
+                        }
+                        Err(DeliverError::Closed(_)) => break,
+                        Err(DeliverError::Full(_)) => {
+                            if Instant::now() > end {
+                                break;
+                            }
+                            std::thread::yield_now();
+                        }
+                    }
+                }
+            }
+        }
+    }
+    // wait for the senders; meanwhile notice the exit so that pending calls can be judged
+    let end = Instant::now() + WATCHDOG + Duration::from_secs(10);
+    while hs.iter().any(|(_, h)| !h.is_finished()) {
+        w.poll_exit(slot);
+        if Instant::now() > end {
+            return Err(Outcome::inconclusive("sender threads did not finish within the watchdog"));
+        }
+        std::thread::sleep(Duration::from_micros(300));
+    }
+    let mut all: Vec<Rec> = vec![];
+    for (sender, h) in hs {
+        let recs = h.join().map_err(|_| Outcome::inconclusive("sender thread panicked"))?;
+        let l = w.slots[slot].as_mut().unwrap();
+        for r in &recs {
+            if r.accepted() {
+                l.accepted.entry(sender).or_default().push(r.id.1);
+                match r.act {
+                    Act::Fail => l.fail_accepted = true,
+                    Act::StopSelf => l.stopself_accepted = true,
+                    _ => {}
+                }
+            }
+        }
+        all.extend(recs);
+    }
+    {
+        let l = w.slots[slot].as_mut().unwrap();
+        if cause.load(Ordering::SeqCst) {
+            // controller's Fail/StopSelf message
+            if let Some(x) = exit {
+                match x.kind {
+                    ExitKind::FailMsg => l.fail_accepted = true,
+                    ExitKind::StopSelfMsg => l.stopself_accepted = true,
+                    ExitKind::Stop => {}
+                }
+            }
+        }
+    }
+    let exiting = {
+        let l = w.slots[slot].as_ref().unwrap();
+        l.stop_requested || l.fail_accepted || l.stopself_accepted
+    };
+    if exiting {
+        if n >= 2 {
+            w.exit_with_concurrent_senders = true;
+        }
+        w.labels.insert(format!("burst-with-exit:{}", exit.map(|x| format!("{:?}", x.kind)).unwrap_or_else(|| "message".into())));
+        if allow_calls && all.iter().any(|r| r.call) {
+            w.labels.insert("calls-race-with-exit".into());
+        }
+    } else {
+        w.labels.insert(if n >= 2 { "burst-concurrent".into() } else { "burst-single".to_string() });
+    }
+    // judge the records
+    for r in &all {
+        match &r.out {
+            Out::Wrong(d) => return Err(viol("C19/wrong-message-or-reply", d.clone())),
+            Out::Timeout => return Err(Outcome::inconclusive("a call was not answered within the watchdog (actor still alive)")),
+            Out::SendClosed | Out::CallClosed if !exiting => {
+                return Err(viol("C19/closed-without-stop", format!("actor {aid}: {:?} returned Closed although nobody stopped or failed the actor", r.id)));
+            }
+            Out::CallOk(a) => {
+                if *a != aid {
+                    return Err(viol("C19/reply-from-wrong-actor", format!("call {:?} to actor {aid} answered by actor {a}", r.id)));
+                }
+                if matches!(r.act, Act::NoReply | Act::Fail) {
+                    return Err(viol("C19/reply-without-handler-reply", format!("call {:?} ({:?}) got a reply its handler never sent", r.id, r.act)));
+                }
+            }
+            Out::CallNoReply if !exiting && !matches!(r.act, Act::NoReply) => {
+                return Err(viol("C19/call-no-reply-from-live-actor", format!("call {:?} ({:?}) to live actor {aid} returned NoReply", r.id, r.act)));
+            }
+            Out::CallStuck => {
+                w.known_stuck.get_or_insert(format!(
+                    "call {:?} was accepted by actor {aid}'s mailbox; the actor has exited (its ActorHandle resolved, so finish() ran and dropped the receiver) and the call future is still Pending: the request sits in the channel, which lives as long as any Mailbox does",
+                    r.id
+                ));
+            }
+            _ => {}
+        }
+    }
+    if exiting {
+        w.reap(slot, group_accepted)?;
+        // replies must belong to handled messages
+        let handled: HashSet<MsgId> = handled_ids(&w.sh.log_of(aid)).into_iter().collect();
+        for r in &all {
+            if matches!(r.out, Out::CallOk(_)) && !handled.contains(&r.id) {
+                return Err(viol("C19/reply-without-handling", format!("call {:?} was answered but never handled", r.id)));
+            }
+            if matches!(r.out, Out::CallStuck) && handled.contains(&r.id) {
+                w.known_stuck = None;
+                return Err(viol("C19/handled-call-never-answered", format!("call {:?} was handled ({:?}) but its caller is still pending after the actor's exit", r.id, r.act)));
+            }
+        }
+        Ok(())
+    } else {
+        w.settle(slot, group_accepted)
+    }
+}
+
+fn live_member_sets(w: &World) -> (Vec<usize>, Vec<usize>) {
+    // (idle member aids, parked-and-full member aids) among live members
+    let mut idle = vec![];
+    let mut full = vec![];
+    for m in &w.members {
+        if let Some(l) = w.slots.iter().flatten().find(|l| l.aid == m.aid) {
+            if l.blocked.is_some() {
+                full.push(l.aid);
+            } else {
+                idle.push(l.aid);
+            }
+        }
+    }
+    (idle, full)
+}
+
+fn settle_members(w: &mut World, group_accepted: &HashSet<MsgId>) -> Result<(), Fail> {
+    let aids: Vec<usize> = w.members.iter().map(|m| m.aid).collect();
+    for slot in 0..w.slots.len() {
+        if w.slots[slot].as_ref().map(|l| aids.contains(&l.aid)).unwrap_or(false) {
+            w.settle(slot, group_accepted)?;
+        }
+    }
+    Ok(())
+}
+
+fn handler_of(w: &World, id: MsgId) -> Vec<usize> {
+    (0..w.sh.next_aid.load(Ordering::SeqCst).min(MAX_ACTORS)).filter(|a| w.sh.actors[*a].log.lock().unwrap().contains(&Ev::Begin(id))).collect()
+}
+
+fn step_group_send(w: &mut World, n: u8, call: bool, group_accepted: &mut HashSet<MsgId>) -> Result<(), Fail> {
+    settle_members(w, group_accepted)?;
+    let sender = w.new_sender();
+    for k in 0..n as u32 {
+        let (idle, full) = live_member_sets(w);
+        let id = (sender, k);
+        group_accepted.insert(id);
+        let res: Result<Option<usize>, &'static str> = if call {
+            match block_on_for(w.g_call.call(Ask { id, act: Act::Nop }), WATCHDOG) {
+                None => return Err(Outcome::inconclusive("group call not answered within the watchdog")),
+                Some(Ok(a)) if a.id == id => Ok(Some(a.aid)),
+                Some(Ok(a)) => return Err(viol("C19/wrong-message-or-reply", format!("group call {id:?} got the reply for {:?}", a.id))),
+                Some(Err(CallError::Full(m))) if m.id == id => Err("Full"),
+                Some(Err(CallError::Closed(m))) if m.id == id => Err("Closed"),
+                Some(Err(CallError::NoReply)) => Err("NoReply"),
+                Some(Err(_)) => return Err(viol("C19/wrong-message-or-reply", format!("group call {id:?}: another request was handed back"))),
+            }
+        } else {
+            match w.g_cast.send(Cast { id, act: Act::Nop }) {
+                Ok(()) => Ok(None),
+                Err(DeliverError::Full(m)) if m.id == id => Err("Full"),
+                Err(DeliverError::Closed(m)) if m.id == id => Err("Closed"),
+                Err(e) => return Err(viol("C19/wrong-message-or-reply", format!("group send {id:?} handed back {:?}", e.into_inner().id))),
+            }
+        };
+        let expect = if !idle.is_empty() {
+            "Ok"
+        } else if !full.is_empty() {
+            "Full"
+        } else {
+            "Closed"
+        };
+        let got = match &res {
+            Ok(_) => "Ok",
+            Err(e) => e,
+        };
+        if got != expect {
+            group_accepted.remove(&id);
+            return Err(viol(
+                &format!("C19/group-routing/expected-{expect}-got-{got}"),
+                format!("group {} {id:?}: live idle members {idle:?}, live members parked with a full mailbox {full:?}: expected {expect}, got {got}", if call { "call" } else { "send" }),
+            ));
+        }
+        if res.is_err() {
+            group_accepted.remove(&id);
+        }
+        settle_members(w, group_accepted)?;
+        let by = handler_of(w, id);
+        match (&res, by.as_slice()) {
+            (Err(_), []) => {}
+            (Err(_), _) => return Err(viol("C19/rejected-message-handled", format!("group message {id:?} was handed back ({got}) and yet handled by {by:?}"))),
+            (Ok(replier), [a]) => {
+                if !idle.contains(a) {
+                    return Err(viol("C19/group-routed-to-non-member", format!("group message {id:?} handled by actor {a}; live non-full members were {idle:?}")));
+                }
+                if let Some(r) = replier {
+                    if r != a {
+                        return Err(viol("C19/reply-from-wrong-actor", format!("group call {id:?} handled by {a}, answered by {r}")));
+                    }
+                }
+            }
+            (Ok(_), other) => return Err(viol("C19/group-not-exactly-one", format!("group message {id:?} was accepted and handled by {other:?} (expected exactly one member of {idle:?})"))),
+        }
+        w.labels.insert(format!("group-send:{expect}"));
+    }
+    Ok(())
+}
+
+fn step_group_burst(w: &mut World, senders: &[Vec<Op>], group_accepted: &mut HashSet<MsgId>) -> Result<(), Fail> {
+    settle_members(w, group_accepted)?;
+    let (idle, full) = live_member_sets(w);
+    let n = senders.len();
+    let arrived = Arc::new(AtomicUsize::new(0));
+    let never = Arc::new(AtomicBool::new(false));
+    let mut hs = vec![];
+    for ops in senders {
+        let sender = w.new_sender();
+        let ops: Vec<Op> = ops
+            .iter()
+            .map(|o| {
+                let mut o = o.clone();
+                // group bursts never end an actor (exits are exercised by direct bursts)
+                if matches!(o.act, Act::Fail | Act::StopSelf | Act::WaitGate(_)) || (!o.call && o.act == Act::NoReply) {
+                    o.act = Act::Nop;
+                }
+                o
+            })
+            .collect();
+        // every message is registered as "may be handled by a member" before it is sent
+        for k in 0..ops.len() {
+            group_accepted.insert((sender, k as u32));
+        }
+        let (t, g, c, a) = (Target::Group(w.g_cast.clone(), w.g_call.clone()), never.clone(), never.clone(), arrived.clone());
+        hs.push(std::thread::Builder::new().name("c19gsend".into()).spawn(move || run_sender(t, sender, ops, g, c, a, n)).expect("spawn sender"));
+    }
+    let mut all = vec![];
+    for h in hs {
+        all.extend(h.join().map_err(|_| Outcome::inconclusive("group sender panicked"))?);
+    }
+    settle_members(w, group_accepted)?;
+    for r in &all {
+        let by = handler_of(w, r.id);
+        match &r.out {
+            Out::Wrong(d) => return Err(viol("C19/wrong-message-or-reply", d.clone())),
+            Out::Timeout | Out::CallStuck => return Err(Outcome::inconclusive("a group call was not answered within the watchdog")),
+            Out::SendOk | Out::CallOk(_) | Out::CallNoReply => {
+                if by.len() != 1 {
+                    return Err(viol("C19/group-not-exactly-one", format!("group message {:?} was accepted ({:?}) and handled by {by:?}; idle members {idle:?}", r.id, r.out)));
+                }
+                if !idle.contains(&by[0]) {
+                    return Err(viol("C19/group-routed-to-non-member", format!("group message {:?} handled by actor {}; live non-full members were {idle:?}", r.id, by[0])));
+                }
+                if let Out::CallOk(a) = r.out {
+                    if a != by[0] {
+                        return Err(viol("C19/reply-from-wrong-actor", format!("group call {:?} handled by {}, answered by {a}", r.id, by[0])));
+                    }
+                }
+                if r.out == Out::CallNoReply && r.act != Act::NoReply {
+                    return Err(viol("C19/call-no-reply-from-live-actor", format!("group call {:?} ({:?}) returned NoReply", r.id, r.act)));
+                }
+            }
+            Out::SendFull | Out::CallFull | Out::SendClosed | Out::CallClosed => {
+                group_accepted.remove(&r.id);
+                if !by.is_empty() {
+                    return Err(viol("C19/rejected-message-handled", format!("group message {:?} was handed back ({:?}) and yet handled by {by:?}", r.id, r.out)));
+                }
+                if matches!(r.out, Out::SendClosed | Out::CallClosed) && (!idle.is_empty() || !full.is_empty()) {
+                    return Err(viol("C19/group-closed-with-live-member", format!("group message {:?} came back Closed although live members exist (idle {idle:?}, full {full:?})", r.id)));
+                }
+                if matches!(r.out, Out::SendFull | Out::CallFull) && idle.is_empty() && full.is_empty() {
+                    return Err(viol("C19/group-full-without-member", format!("group message {:?} came back Full although the group has no live member", r.id)));
+                }
+            }
+        }
+    }
+    w.labels.insert(if n >= 2 { "group-burst-concurrent".into() } else { "group-burst-single".to_string() });
+    Ok(())
+}
+
+// ------------------------------------------------------------------------------------------------
+// generator
+
+fn act_strategy() -> impl Strategy<Value = Act> + Clone {
+    prop_oneof![
+        6 => Just(Act::Nop),
+        2 => (1u8..=4).prop_map(Act::Yield),
+        2 => (0u8..=20).prop_map(Act::Sleep),
+        1 => Just(Act::NoReply),
+    ]
+}
+
+fn exit_act_strategy() -> impl Strategy<Value = Act> + Clone {
+    prop_oneof![12 => act_strategy(), 1 => Just(Act::Fail), 1 => Just(Act::StopSelf)]
+}
+
+fn senders_of<S: Strategy<Value = Act> + Clone>(act: S) -> impl Strategy<Value = Vec<Vec<Op>>> + Clone {
+    vec(vec((prop_oneof![3 => Just(false), 2 => Just(true)], act, any::<bool>()).prop_map(|(call, act, broker)| Op { call, act, broker }), 1..=10), 1..=4)
+}
+
+fn step_strategy() -> impl Strategy<Value = Step> + Clone {
+    prop_oneof![
+        5 => (0u8..4, prop_oneof![2 => Just(true), 1 => Just(false)], 1u8..=8, prop_oneof![8 => Just(StartFail::None), 1 => Just(StartFail::PreStart), 1 => Just(StartFail::PostStart)], prop_oneof![2 => Just(false), 1 => Just(true)], prop_oneof![3 => Just(false), 1 => Just(true)])
+            .prop_map(|(slot, named, cap, fail, supervised, slow)| Step::Spawn { slot, named, cap, fail, supervised, slow }),
+        3 => (any::<u16>(), senders_of(act_strategy())).prop_map(|(slot, senders)| Step::Burst { slot, senders, exit: None, calls_may_race: false }),
+        4 => (
+            any::<u16>(),
+            senders_of(exit_act_strategy()),
+            prop_oneof![1 => Just(None), 4 => (prop_oneof![3 => Just(ExitKind::Stop), 1 => Just(ExitKind::FailMsg), 1 => Just(ExitKind::StopSelfMsg)], prop_oneof![1 => Just(0u16), 2 => 0u16..400, 1 => 400u16..3000]).prop_map(|(kind, after_us)| Some(ExitRace { kind, after_us }))],
+            prop_oneof![5 => Just(false), 1 => Just(true)],
+        )
+            .prop_map(|(slot, senders, exit, calls_may_race)| Step::Burst { slot, senders, exit, calls_may_race }),
+        1 => any::<u16>().prop_map(|slot| Step::Stop { slot }),
+        1 => any::<u16>().prop_map(|slot| Step::Block { slot }),
+        1 => any::<u16>().prop_map(|slot| Step::Unblock { slot }),
+        4 => any::<u16>().prop_map(|slot| Step::GroupJoin { slot }),
+        1 => any::<u16>().prop_map(|member| Step::GroupLeave { member }),
+        3 => (1u8..=4, any::<bool>()).prop_map(|(n, call)| Step::GroupSend { n, call }),
+        2 => senders_of(act_strategy()).prop_map(|senders| Step::GroupBurst { senders }),
+    ]
+}
+
+fn case_strategy() -> impl Strategy<Value = ActorCase> + Clone {
+    (1u8..=3, 0u8..=2, vec(step_strategy(), 2..=14)).prop_map(|(workers, respawns, mut steps)| {
+        // programs start by creating actors, otherwise most steps would find nothing to act on
+        steps.insert(0, Step::Spawn { slot: 0, named: true, cap: 2 + workers, fail: StartFail::None, supervised: respawns > 0, slow: false });
+        ActorCase { workers, respawns, steps }
+    })
+}
+
+fn main() {
+    let mut s = Session::new();
+    let mut p = Part::new(
+        "C19",
+        "programs",
+        "case = cluster(1-3 workers) x program of 3-15 steps run by a controller thread: spawn (4 name slots; named/unnamed, capacity 1-8, pre_start/post_start failure, supervised, \
+         slow start-up parked in pre_start while lookup and a duplicate spawn are tried), burst (1-4 threads x 1-10 send/call ops through mailbox or broker with handler \
+         acts nop/yield/sleep/no-reply/fail/stop-self, optionally racing with a controller stop()/fail/stop-self after 0-3 ms), stop, park-in-handler-and-fill-mailbox, unpark, \
+         process-group join/leave, exact sequential group send/call, concurrent group burst; a supervisor respawns failed/terminated named children under the same name (budget 0-2). \
+         Calls are kept out of bursts that can end the actor unless calls_may_race (1 in 6; that shape is the known finding). \
+         Non-trivial = a burst with >= 2 sender threads during which the actor was stopped or failed, or a name used by >= 2 successive actors; distinct = distinct serialised case.",
+    );
+    p.quick_cases = 900;
+    p.thorough_cases = 30000;
+    p.replay_repeats = 20;
+    p.max_shrink_iters = 60;
+    p.assumptions = vec![
+        "cross-thread acceptance order is not observable: FIFO is checked per sender (every sender's handled messages are a prefix of its accepted ones, in order)",
+        "flume and futures-channel are trusted",
+    ];
+    let op = |call, act| Op { call, act, broker: false };
+    p.regressions = vec![
+        (
+            // known finding: two calls into a slow handler, then stop(): the queued one is never answered
+            "call-queued-behind-slow-handler-then-stop",
+            ActorCase {
+                workers: 1,
+                respawns: 0,
+                steps: vec![
+                    Step::Spawn { slot: 0, named: false, cap: 4, fail: StartFail::None, supervised: false, slow: false },
+                    Step::Burst {
+                        slot: 0,
+                        senders: vec![vec![op(true, Act::Sleep(200))], vec![op(false, Act::Sleep(200)), op(true, Act::Nop)], vec![op(true, Act::Sleep(100))]],
+                        exit: Some(ExitRace { kind: ExitKind::Stop, after_us: 3000 }),
+                        calls_may_race: true,
+                    },
+                ],
+            },
+        ),
+        (
+            "named-lifecycle-reuse-and-group",
+            ActorCase {
+                workers: 2,
+                respawns: 1,
+                steps: vec![
+                    Step::Spawn { slot: 0, named: true, cap: 2, fail: StartFail::None, supervised: true, slow: true },
+                    Step::Spawn { slot: 1, named: true, cap: 1, fail: StartFail::None, supervised: false, slow: false },
+                    Step::Spawn { slot: 0, named: true, cap: 2, fail: StartFail::None, supervised: false, slow: false },
+                    Step::Spawn { slot: 2, named: true, cap: 3, fail: StartFail::PreStart, supervised: false, slow: true },
+                    Step::Spawn { slot: 2, named: true, cap: 3, fail: StartFail::PostStart, supervised: true, slow: false },
+                    Step::GroupJoin { slot: 0 },
+                    Step::GroupJoin { slot: 40000 },
+                    Step::GroupSend { n: 3, call: true },
+                    Step::Block { slot: 0 },
+                    Step::GroupSend { n: 2, call: false },
+                    Step::GroupBurst { senders: vec![vec![op(false, Act::Nop), op(true, Act::Yield(2))], vec![op(true, Act::NoReply), op(false, Act::Sleep(3))]] },
+                    Step::Burst { slot: 0, senders: vec![vec![op(false, Act::Nop), op(false, Act::Fail)], vec![op(false, Act::Sleep(5)), op(false, Act::Nop)]], exit: None, calls_may_race: false },
+                    Step::Stop { slot: 0 },
+                    Step::GroupSend { n: 2, call: true },
+                ],
+            },
+        ),
+    ];
+    if s.args.shard.0 != 0 {
+        // the fixed cases run once per check, in shard 0
+        p.regressions.clear();
+    }
+    // safety valve for broken trees: after three consecutive hung cases the rest is reported
+    // inconclusive at once (the run then exits 2) instead of each waiting for its watchdogs
+    static HUNG: std::sync::atomic::AtomicU32 = std::sync::atomic::AtomicU32::new(0);
+    s.run_part(p, case_strategy(), |c| {
+        if HUNG.load(Ordering::SeqCst) >= 3 {
+            return Outcome::inconclusive("circuit breaker: three consecutive cases hung");
+        }
+        let o = run_case(c);
+        match &o {
+            Outcome::Inconclusive { .. } => {
+                HUNG.fetch_add(1, Ordering::SeqCst);
+            }
+            _ => HUNG.store(0, Ordering::SeqCst),
+        }
+        o
+    });
+    s.finish();
+}
